@@ -1,17 +1,22 @@
 (** C01 - well-formed encodings decode to exactly the field-by-field event sequence.
     The specification of "the interpretation the TPM 2.0 layout tables dictate" is Spec/Value.v + Spec/Message.v
     ([spec_events]); it is evaluated at the PINNED tables, and C20_pinned bridges to the regenerated ones.
-    PROVED: the statement for EVERY structure type - primitives, structures, TPM2B (list and structured,
-    empty payloads), unions, counted lists, parameter areas with an opaque first parameter - for all tables, all
-    type descriptors, all inputs, by a simulation between the constraint-tracking coroutine decoder and the
-    specification's plain reading (Proofs/Sim1-5.v).
-    NOT YET PROVED: the same statement for the Command / Response / stream roots - for these the property is
-    decided by the oracle (implementation vs extracted [spec_events] on generated well-formed messages of every
-    command code, 0-3 sessions, encrypted first parameter, failed responses) and the model correspondence.
+    PROVED, for all inputs: the statement for EVERY structure type (primitives, structures, TPM2B (list and
+    structured, empty payloads), unions, counted lists, parameter areas with an opaque first parameter; all tables),
+    for COMMANDS (handle and parameter areas picked by the command code, session area iff the tag says so -
+    size-governed list of sessions, present-but-empty included -, opaque first parameter iff a session asks for
+    decryption) and for RESPONSES given the command code and the encryption flag (header-only decoding of failed
+    responses, parameterSize region and sessions up to the end iff the tag says so, flag consistent with the
+    sessions) - by a simulation between the constraint-tracking coroutine decoder and the specification's plain
+    reading (Proofs/Sim1-10.v).  The message-level theorems hold for all tables satisfying [msg_tables_ok] (session
+    structures carry the attribute word as a plain field; no response handle area is a parameter structure), which
+    the regenerated tables satisfy by computation.
+    NOT YET PROVED: the same statement for the stream root (command / response sequences) - decided by the oracle
+    (implementation vs extracted [spec_events] on generated streams) and the model correspondence.
     Statement file: theorem statements, [exact], Print Assumptions only. *)
 From Coq Require Import ZArith List String Bool.
 From TV Require Import Layout.Types gen.Tables gen.Pinned Base.Bytes Model.Monad Model.Ints Model.Message Model.Pump
-  Spec.Value Spec.Message Proofs.OpLemmas Proofs.Sim5 Properties.C20.
+  Spec.Value Spec.Message Proofs.OpLemmas Proofs.Sim5 Proofs.Sim10 Properties.C20.
 Import ListNotations.
 Open Scope Z_scope.
 
@@ -29,6 +34,26 @@ Theorem C01_structure_types_pinned :
 Proof. rewrite C20_pinned. exact (types_decode_as_specified Pinned.T). Qed.
 Print Assumptions C01_structure_types_pinned.
 
+(** every root but a stream - structure types, commands, responses (with command code and encryption flag) - for
+    all tables passing [msg_tables_ok], all inputs *)
+Theorem C01_types_commands_responses :
+  forall T r bs evs, msg_tables_ok T = true -> is_stream_root r = false ->
+    spec_events T r bs = Some evs -> decode T true r bs = (evs, OAccepted).
+Proof. exact root_decodes_as_specified. Qed.
+Print Assumptions C01_types_commands_responses.
+
+(** the regenerated tables pass the check *)
+Theorem C01_tables_ok : msg_tables_ok Tables.T = true.
+Proof. vm_compute. reflexivity. Qed.
+Print Assumptions C01_tables_ok.
+
+(** specification at the PINNED layout, decoder at the tables regenerated from /repo *)
+Theorem C01_types_commands_responses_pinned :
+  forall r bs evs, is_stream_root r = false ->
+    spec_events Pinned.T r bs = Some evs -> decode Tables.T true r bs = (evs, OAccepted).
+Proof. intros r bs evs. rewrite C20_pinned. apply root_decodes_as_specified. rewrite <- C20_pinned. exact C01_tables_ok. Qed.
+Print Assumptions C01_types_commands_responses_pinned.
+
 (** (earlier, now subsumed) primitive roots *)
 Theorem C01_primitive_types_partial :
   forall T p bs, 0 < pwidth p -> List.length bs = Z.to_nat (pwidth p) -> valid p (from_bytes (psigned p) bs) = true ->
@@ -36,7 +61,7 @@ Theorem C01_primitive_types_partial :
 Proof. exact prim_root_decodes_as_specified. Qed.
 Print Assumptions C01_primitive_types_partial.
 
-(** the full statement (kept visible; proved only in the instance above):
+(** the full statement (kept visible; proved above for every root but the stream):
     forall r bs evs, spec_events Pinned.T r bs = Some evs -> decode Tables.T true r bs = (evs, OAccepted) *)
 Definition C01_full_statement : Prop :=
   forall r bs evs, spec_events Pinned.T r bs = Some evs -> decode Tables.T true r bs = (evs, OAccepted).
